@@ -45,8 +45,113 @@ fn stored_features(t: &Stored) -> Vec<Stored1> {
 
 struct Viol(Vec<usize>, String, String);
 
-fn run_word(cfg: &TrkCfg, rotated: bool, word: &[usize], viol: &mut Vec<Viol>, steps: &mut u64) {
+/// where the records and store dumps of a lane come from: a live tracker of its own, or the recording of one
+/// scene of a shared two-scene batch run
+enum Drive {
+    Live(Guarded<AnyTrk>),
+    Recorded { recs: Vec<Vec<Rec>>, stored: Vec<Vec<Stored>>, wasted: Vec<WRec> },
+}
+
+impl Drive {
+    fn predict(&mut self, k: usize, frame: &[Det]) -> Vec<Rec> {
+        match self {
+            Drive::Live(t) => t.predict(0, frame),
+            Drive::Recorded { recs, .. } => recs[k].clone(),
+        }
+    }
+    fn stored(&mut self, k: usize, shards: usize) -> Vec<Stored> {
+        match self {
+            Drive::Live(t) => t.all_stored(false, shards),
+            Drive::Recorded { stored, .. } => stored[k].clone(),
+        }
+    }
+    fn expire(&mut self, max_idle: usize) -> Vec<WRec> {
+        match self {
+            Drive::Live(t) => {
+                t.skip(0, max_idle + 1);
+                t.wasted()
+            }
+            Drive::Recorded { wasted, .. } => wasted.clone(),
+        }
+    }
+}
+
+/// the detections of update k: the object's detection first. `far_cover`: the lane in which the detection that
+/// comes with symbol 5 lies far away from the object instead of covering half of it (same frame length, same
+/// index, own-area share 1 instead of .5)
+fn frame_of(rotated: bool, far_cover: bool, word: &[usize], k: usize) -> (Det, Vec<Det>, Option<Vec<f32>>, Option<f32>) {
+    let s = word[k];
+    let (f, qual) = sym(s, k);
+    // the object drifts slowly so that boxes in the histories are all different
+    let mut d = p().shift(0.25 * k as f32, 0.125 * k as f32);
+    if let (Some(f), Some(q)) = (&f, qual) {
+        d = d.feat(f, q);
+    }
+    // symbols 6 / 7: a good feature on a box that is suddenly smaller (area 141) / larger (area 288) than the
+    // object was so far (area 200): the 'collect' area threshold is about the DETECTION's box, whatever the
+    // filter has smoothed it to
+    if s == 6 || s == 7 {
+        let f6 = if s == 6 { 0.84f32 } else { 1.2 };
+        let (cx, cy) = (5.0 + 0.25 * k as f32, 10.0 + 0.125 * k as f32);
+        let mut nd = Det::ltwh(cx - 5.0 * f6, cy - 10.0 * f6, 10.0 * f6, 20.0 * f6);
+        nd.feature = d.feature.clone();
+        nd.quality = d.quality;
+        d = nd;
+    }
+    // rotated configuration: every detection of the object is turned by a quarter turn (real footprint 20 x 10)
+    if rotated {
+        d = d.rot(std::f32::consts::FRAC_PI_2);
+    }
+    // symbol 5: a good feature, but half of the box is covered by another detection of the same frame
+    // (exclusively owned share 0.5; rotated configuration: the partner lies 11 to the right along the long
+    // side, share 0.55 - the unrotated extents of the two boxes do not even touch there)
+    let distractor = q().feat(&fb(), 0.9);
+    let mut frame = vec![d.clone(), distractor.shift(0.0, 0.1 * k as f32)];
+    if s == 5 {
+        let dx = if far_cover { 400.0 + 30.0 * k as f32 } else if rotated { 11.0 } else { 5.0 };
+        frame.push(Det { bbox: d.shift(dx, 0.0).bbox, custom_id: None, feature: None, quality: None });
+    }
+    (d, frame, f, qual)
+}
+
+/// Two lanes in ONE tracker: scenes 0 and 3 of two-scene batches carry the same word; in scene 3 the detection
+/// that comes with symbol 5 is far away. The two scenes need different own-area shares at the same index of
+/// their frames, whichever of them the batch hands out first. Each lane is then judged like a run of its own.
+fn run_word_shared_batch(cfg: &TrkCfg, rotated: bool, word: &[usize], viol: &mut Vec<Viol>, steps: &mut u64) {
     let mut trk = Guarded::new(AnyTrk::new(cfg));
+    let mut lanes: Vec<(Vec<Vec<Rec>>, Vec<Vec<Stored>>)> = vec![(vec![], vec![]), (vec![], vec![])];
+    for k in 0..word.len() {
+        let batch: Vec<(u64, Vec<Det>)> = vec![(0, frame_of(rotated, false, word, k).1), (3, frame_of(rotated, true, word, k).1)];
+        let res = trk.submit_batch(&batch);
+        for _ in 0..2 {
+            let (scene, recs) = res.get();
+            let lane = if scene == 0 { 0 } else { 1 };
+            lanes[lane].0.push(recs.iter().map(Rec::from).collect());
+        }
+        let st = trk.all_stored(false, cfg.shards);
+        for (i, scene) in [0u64, 3].iter().enumerate() {
+            lanes[i].1.push(st.iter().filter(|t| t.scene == *scene).cloned().collect());
+        }
+    }
+    trk.skip(0, cfg.max_idle + 1);
+    trk.skip(3, cfg.max_idle + 1);
+    let w = trk.wasted();
+    for (i, (recs, stored)) in lanes.into_iter().enumerate() {
+        let scene = [0u64, 3][i];
+        let drive = Drive::Recorded { recs, stored, wasted: w.iter().filter(|x| x.scene == scene).cloned().collect() };
+        let before = viol.len();
+        run_word_on(drive, cfg, rotated, i == 1, word, viol, steps);
+        for v in &mut viol[before..] {
+            v.2 = format!("[two-scene batches, scene {scene}{}] {}", if i == 1 { ", covering detection far away" } else { "" }, v.2);
+        }
+    }
+}
+
+fn run_word(cfg: &TrkCfg, rotated: bool, word: &[usize], viol: &mut Vec<Viol>, steps: &mut u64) {
+    run_word_on(Drive::Live(Guarded::new(AnyTrk::new(cfg))), cfg, rotated, false, word, viol, steps)
+}
+
+fn run_word_on(mut trk: Drive, cfg: &TrkCfg, rotated: bool, far_cover: bool, word: &[usize], viol: &mut Vec<Viol>, steps: &mut u64) {
     let visual = cfg.kind.is_visual();
     let max = cfg.vis.max_obs;
     let hlen = cfg.history;
@@ -55,7 +160,6 @@ fn run_word(cfg: &TrkCfg, rotated: bool, word: &[usize], viol: &mut Vec<Viol>, s
     let mut obs_hist: Vec<BoxR> = vec![];
     let mut pred_hist: Vec<BoxR> = vec![];
     let mut feat_hist: Vec<Option<Vec<u32>>> = vec![];
-    let distractor = q().feat(&fb(), 0.9);
     macro_rules! bad {
         ($k:expr, $key:expr, $what:expr) => {{
             viol.push(Viol(word[..=$k].to_vec(), $key.to_string(), $what));
@@ -64,35 +168,8 @@ fn run_word(cfg: &TrkCfg, rotated: bool, word: &[usize], viol: &mut Vec<Viol>, s
     }
     for (k, s) in word.iter().enumerate() {
         *steps += 1;
-        let (f, qual) = sym(*s, k);
-        // the object drifts slowly so that boxes in the histories are all different
-        let mut d = p().shift(0.25 * k as f32, 0.125 * k as f32);
-        if let (Some(f), Some(q)) = (&f, qual) {
-            d = d.feat(f, q);
-        }
-        // symbols 6 / 7: a good feature on a box that is suddenly smaller (area 141) / larger (area 288) than the
-        // object was so far (area 200): the 'collect' area threshold is about the DETECTION's box, whatever the
-        // filter has smoothed it to
-        if *s == 6 || *s == 7 {
-            let f6 = if *s == 6 { 0.84f32 } else { 1.2 };
-            let (cx, cy) = (5.0 + 0.25 * k as f32, 10.0 + 0.125 * k as f32);
-            let mut nd = Det::ltwh(cx - 5.0 * f6, cy - 10.0 * f6, 10.0 * f6, 20.0 * f6);
-            nd.feature = d.feature.clone();
-            nd.quality = d.quality;
-            d = nd;
-        }
-        // rotated configuration: every detection of the object is turned by a quarter turn (real footprint 20 x 10)
-        if rotated {
-            d = d.rot(std::f32::consts::FRAC_PI_2);
-        }
-        // symbol 5: a good feature, but half of the box is covered by another detection of the same frame
-        // (exclusively owned share 0.5; rotated configuration: the partner lies 11 to the right along the long
-        // side, share 0.55 - the unrotated extents of the two boxes do not even touch there)
-        let mut frame = vec![d.clone(), distractor.shift(0.0, 0.1 * k as f32)];
-        if *s == 5 {
-            frame.push(Det { bbox: d.shift(if rotated { 11.0 } else { 5.0 }, 0.0).bbox, custom_id: None, feature: None, quality: None });
-        }
-        let recs = trk.predict(0, &frame);
+        let (d, frame, f, qual) = frame_of(rotated, far_cover, word, k);
+        let recs = trk.predict(k, &frame);
         if recs.len() != frame.len() {
             bad!(k, "gallery/record-count", format!("{} records", recs.len()));
         }
@@ -108,7 +185,7 @@ fn run_word(cfg: &TrkCfg, rotated: bool, word: &[usize], viol: &mut Vec<Viol>, s
         if recs[1].id == r.id {
             bad!(k, "gallery/distractor-merged", "both detections on one track".to_string());
         }
-        let stored = trk.all_stored(false, cfg.shards);
+        let stored = trk.stored(k, cfg.shards);
         let Some(t) = stored.iter().find(|t| t.id == r.id) else { bad!(k, "gallery/track-missing", format!("track {} not in the store", r.id)) };
         // histories ----------------------------------------------------------------------------
         obs_hist.push(box_r(&d.bbox));
@@ -154,7 +231,7 @@ fn run_word(cfg: &TrkCfg, rotated: bool, word: &[usize], viol: &mut Vec<Viol>, s
                 (None, _) => false,
                 (Some(_), 0) => true, // the detection that starts a track keeps its feature
                 // the own-area shares are computed when either own-area threshold is configured
-                (Some(n), _) => f32::from_bits(n.0) >= Q_COLLECT && d.bbox.area() >= cfg.vis.min_area && !(*s == 5 && cfg.vis.own_use + cfg.vis.own_collect > 0.0 && (if rotated { 0.55 } else { 0.5 }) < cfg.vis.own_collect),
+                (Some(n), _) => f32::from_bits(n.0) >= Q_COLLECT && d.bbox.area() >= cfg.vis.min_area && !(*s == 5 && !far_cover && cfg.vis.own_use + cfg.vis.own_collect > 0.0 && (if rotated { 0.55 } else { 0.5 }) < cfg.vis.own_collect),
             };
             let has_new = newcomer.as_ref().map_or(false, |n| now.contains(n));
             // the statement speaks of detections that continue a track; for the one that starts it a
@@ -204,8 +281,7 @@ fn run_word(cfg: &TrkCfg, rotated: bool, word: &[usize], viol: &mut Vec<Viol>, s
         }
     }
     // wasted conversion echoes the histories
-    trk.skip(0, cfg.max_idle + 1);
-    let w = trk.wasted();
+    let w = trk.expire(cfg.max_idle);
     let Some(wt) = w.iter().find(|x| Some(x.id) == id) else {
         viol.push(Viol(word.to_vec(), "history/wasted-track-missing".into(), "the expired track was not handed out".into()));
         return;
@@ -225,7 +301,7 @@ fn run_word(cfg: &TrkCfg, rotated: bool, word: &[usize], viol: &mut Vec<Viol>, s
 
 pub fn run(tier: Tier) -> Report {
     let rep = Report::new("C13", tier);
-    rep.set_rule("one continuing (slowly drifting) object plus a distractor; per update a symbol from {quality .1 (below the collect threshold .3), .5, .5 (another vector), .9, no feature}; every word of length <= L (quick 6, thorough 8) and every word of length <= 4 repeated to N updates (quick 60, thorough 300) x visual_max_observations 1..4 (thorough 1..8) x history length {1,3} (thorough 1..10 subset) on VisualSort / BatchVisualSort (galleries + histories) and Sort / BatchSort (histories); plus, with the own-area 'collect' threshold configured alone (.6, .4), together with a 'use' threshold, and off, every word of length <= L-1 containing a sixth symbol (quality .9 but half of the box covered by another detection of the frame: exclusively owned share .5; one configuration with every box of the object turned by a quarter turn, share .55); plus, with the area 'collect' threshold at 150 / 250, every word of length <= L-1 over {q .5, q .9, no feature, size jump} containing a detection whose box area jumps across the threshold (141 / 288 against 200 before); after every update the gallery and the histories are read from the live store. Non-trivial = word with at least two features.");
+    rep.set_rule("one continuing (slowly drifting) object plus a distractor; per update a symbol from {quality .1 (below the collect threshold .3), .5, .5 (another vector), .9, no feature}; every word of length <= L (quick 6, thorough 8) and every word of length <= 4 repeated to N updates (quick 60, thorough 300) x visual_max_observations 1..4 (thorough 1..8) x history length {1,3} (thorough 1..10 subset) on VisualSort / BatchVisualSort (galleries + histories) and Sort / BatchSort (histories); plus, with the own-area 'collect' threshold configured alone (.6, .4), together with a 'use' threshold, and off, every word of length <= L-1 containing a sixth symbol (quality .9 but half of the box covered by another detection of the frame: exclusively owned share .5; one configuration with every box of the object turned by a quarter turn, share .55; on the batch tracker the same words also as scenes 0 and 3 of shared two-scene batches, the covering detection far away in scene 3, each scene judged as a run of its own); plus, with the area 'collect' threshold at 150 / 250, every word of length <= L-1 over {q .5, q .9, no feature, size jump} containing a detection whose box area jumps across the threshold (141 / 288 against 200 before); after every update the gallery and the histories are read from the live store. Non-trivial = word with at least two features.");
     rep.assume("eviction is demanded only when capacity would be exceeded and allowed whenever the gallery was full before the update (the implementation also evicts when the newcomer carries no feature)");
     let l = tier.pick(6usize, 8usize);
     let unroll = tier.pick(60usize, 300usize);
@@ -357,6 +433,10 @@ pub fn run(tier: Tier) -> Report {
             let mut steps = 0u64;
             for w in &ws2[ci * chunk..((ci + 1) * chunk).min(ws2.len())] {
                 run_word(&cfg2, rot2, w, &mut viol, &mut steps);
+                // a batch tracker with own-area thresholds: the same word once more as scenes 0 and 3 of shared batches
+                if cfg2.kind == Kind::BatchVisualSort && cfg2.vis.own_use + cfg2.vis.own_collect > 0.0 && w.len() <= 8 {
+                    run_word_shared_batch(&cfg2, rot2, w, &mut viol, &mut steps);
+                }
             }
             (viol.into_iter().map(|v| (v.0, v.1, v.2)).collect::<Vec<_>>(), steps)
         });
